@@ -101,7 +101,11 @@ func c08Generate(seed uint64, tier string, index int) json.RawMessage {
 	}
 	np := r.Range(1, 5)
 	for i := 0; i < np; i++ {
-		p.Client = append(p.Client, c08Op{Kind: "pull"})
+		if r.Chance(400) {
+			p.Client = append(p.Client, c08Op{Kind: "lpull", Delta: []int{50, 800, 3000, 9000}[r.Intn(4)]})
+		} else {
+			p.Client = append(p.Client, c08Op{Kind: "pull"})
+		}
 		if r.Chance(500) {
 			p.Client = append(p.Client, c08Op{Kind: "idle", Delta: []int{1, 300, 2600}[r.Intn(3)]})
 		}
@@ -402,8 +406,14 @@ func c08Run(env *verifsim.Env, raw json.RawMessage) *verifsim.Violation {
 	clientDocs := map[string]changeRow{}
 	var since SequenceID
 	var clientVio *verifsim.Violation
-	pull := func() error {
-		rows, err := n1.oneShotChanges(nil, base.SetOf("*"), ChangesOptions{Since: since})
+	pullMode := func(longpoll bool, waitMs int) error {
+		var rows []changeRow
+		var err error
+		if longpoll {
+			rows, err = n1.longpollChanges(nil, base.SetOf("*"), ChangesOptions{Since: since}, time.Duration(waitMs)*time.Millisecond)
+		} else {
+			rows, err = n1.oneShotChanges(nil, base.SetOf("*"), ChangesOptions{Since: since})
+		}
 		if err != nil {
 			return err
 		}
@@ -420,12 +430,17 @@ func c08Run(env *verifsim.Env, raw json.RawMessage) *verifsim.Violation {
 		}
 		return nil
 	}
+	pull := func() error { return pullMode(false, 0) }
 	s.Spawn("client", "", func(t *verifsim.Task) {
 		for _, op := range p.Client {
 			switch op.Kind {
 			case "pull":
 				rec := t.Begin("pull", since.String())
 				err := pull()
+				rec.End(since.String(), err)
+			case "lpull":
+				rec := t.Begin("lpull", since.String())
+				err := pullMode(true, op.Delta)
 				rec.End(since.String(), err)
 			case "idle":
 				rec := t.Begin("idle", op.Delta)
